@@ -26,7 +26,7 @@
                                   reconcile_targets): the model state does not change *)
 From Coq Require Import List NArith Bool.
 From SV Require Import lib.Bytes lib.Closure model.Graph model.GraphDump model.GraphInv model.GraphTree
-  model.GraphTreeInv model.GraphCheck.
+  model.GraphTreeInv model.GraphCheck gen.GenGraph.
 Import ListNotations.
 Open Scope N_scope.
 
@@ -108,11 +108,48 @@ Definition reattached_keys (s s' : st) : list key :=
   map nk (filter (fun n => negb (ndet n) &&
                            match find_node (nk n) s with Some m => ndet m | None => false end) (nodes s')).
 Definition undefer_row (r : srow) : srow := mkS (sl r) (sst r) (sneed r) false (sdc r) (shold r).
-Definition undefer_labels (s s' : st) : list str :=
-  map sl (filter (fun r => sdef r && existsb (fun k => has_dep k (KStep, sl r) s') (reattached_keys s s'))
+
+(* (a') the refinement of the trigger (findings.d/C10-D39-refine.patch; selected by the generated flag
+   GenGraph.gen_undefer_refined, the translator recognises both bodies): ... AND NOT EXISTS
+   (unusable_dynamic_input_sql(step.node)): the flag is only cleared when the step has no dynamic input
+   left that is detached or not CONFIRMED / BUILT.  The trigger is a ROW trigger: it sees the tables at
+   the moment the node row is updated.  Two kinds of re-attachment exist:
+   - RECURSIVELY_SET_DETACHED / Node.reattach (full recycle): no file state changes in that statement;
+     the firing for the LAST re-attached source of a step sees the final flags of all its sources;
+   - Trellis.create on a detached node (partial recycle of a file): the trigger fires BEFORE
+     File.initialize_row gives the row its new state (UNCONFIRMED / PLANNED / VOLATILE, or OUTDATED
+     through mark_file_outdated, which wakes the consumers anyway): it sees the OLD state of that
+     file.  A file that was usable and is re-created always changes its state, which is how the pass
+     recognises it (`recreated`).  With two re-created dynamic inputs of the same step, at either
+     firing the other one is still detached or already re-initialised: the flag stays.
+   So: evaluated on (state before, state after) of the transaction, a dynamic input counts as usable
+   when it is attached afterwards and its state -- the OLD one when it was re-created, else the new
+   one -- is CONFIRMED or BUILT, and at most one dynamic input was re-created. *)
+Definition usable_state (f : fstate) : bool := match f with FConfirmed | FBuilt => true | _ => false end.
+Definition ofstate_eqb (a b : option fstate) : bool :=
+  match a, b with Some x, Some y => fstate_eqb x y | None, None => true | _, _ => false end.
+Definition dyn_inputs (step : str) (s' : st) : list key :=
+  map dsrc (filter (fun d => key_eqb (dsnk d) (KStep, step) && ddyn d && is_some (find_node (dsrc d) s') &&
+                             is_some (find_file (snd (dsrc d)) s')) (deps s')).
+Definition recreated (s s' : st) (k : key) : bool :=
+  mem_key k (reattached_keys s s') && negb (ofstate_eqb (fstate_of (snd k) s) (fstate_of (snd k) s')).
+Definition nothing_left_to_wait_for (s s' : st) (step : str) : bool :=
+  let dyn := dyn_inputs step s' in
+  Nat.leb (length (filter (recreated s s') dyn)) 1 &&
+  forallb (fun d => negb (is_detached d s') &&
+                    match (if recreated s s' d then fstate_of (snd d) s else fstate_of (snd d) s') with
+                    | Some f => usable_state f
+                    | None => false end) dyn.
+
+Definition undefer_labels_with (refined : bool) (s s' : st) : list str :=
+  map sl (filter (fun r => sdef r && existsb (fun k => has_dep k (KStep, sl r) s') (reattached_keys s s') &&
+                           (negb refined || nothing_left_to_wait_for s s' (sl r)))
                  (steps s')).
-Definition undefer_post (s s' : st) : st :=
-  fold_left (fun a l => upd_step l undefer_row a) (undefer_labels s s') s'.
+Definition undefer_post_with (refined : bool) (s s' : st) : st :=
+  fold_left (fun a l => upd_step l undefer_row a) (undefer_labels_with refined s s') s'.
+(* the form of the trigger that the source has today *)
+Definition undefer_labels : st -> st -> list str := undefer_labels_with gen_undefer_refined.
+Definition undefer_post : st -> st -> st := undefer_post_with gen_undefer_refined.
 
 Definition has_unusable_dynamic_input (step : str) (s : st) : bool :=
   existsb (fun d => key_eqb (dsnk d) (KStep, step) && ddyn d && is_some (find_node (dsrc d) s) &&
